@@ -121,6 +121,16 @@ fn project_case(n: usize, p: &Project, wl: &[(String, Option<&str>)], sections: 
         Some(_) if !well_formed => a.ok += 1,
         other => a.viols.push(Viol { key: key("round-trip"), desc: format!("json -> files -> json changed the project: {:?} (exits {:?} {:?}; files {:?}); expected {}", other, o2.code, o3.code, sb.list("."), model), case: case() }),
     }
+    // `asca run -j p.json` (json project as input) and `-j` with `-w` overriding the words
+    a.evals += 1;
+    let _ = run_cli(&sb.dir, &["run", "-j", "p.json", "-o", "outj.wsca"]); a.procs += 1;
+    match (&want, sb.read("outj.wsca")) { (Ok(w), Some(g)) if g == w.join("\n") => a.ok += 1, (Err(_), None) => a.ok += 1, (w, g) => a.viols.push(Viol { key: key("run-json"), desc: format!("`asca run -j` wrote {:?}, the library gives {:?}", g, w), case: case() }) }
+    a.evals += 1;
+    sb.write("other.wsca", "ta.pa\n\nˈpat   # x");
+    let _ = run_cli(&sb.dir, &["run", "-j", "p.json", "-w", "other.wsca", "-o", "outjw.wsca"]); a.procs += 1;
+    let mut p2 = p.clone(); p2.words = vec!["ta.pa".into(), "".into(), "ˈpat".into()];
+    let want2 = lib_run(&p2);
+    match (&want2, sb.read("outjw.wsca")) { (Ok(w), Some(g)) if g == w.join("\n") => a.ok += 1, (Err(_), None) => a.ok += 1, (w, g) => a.viols.push(Viol { key: key("run-json-words"), desc: format!("`asca run -j -w` wrote {:?}, the library gives {:?}", g, w), case: case() }) }
     // the written files give the library the same answer
     if want.is_ok() {
         a.evals += 1;
@@ -159,7 +169,7 @@ pub fn run() -> i32 {
     let mut r = Report::new("C19");
     if !cli_available() { r.machinery_errors.push(format!("{} not built", CLI)); return r.finish(); }
     let thorough = r.thorough();
-    r.rule = "every generated project (1-2 (3) rule groups x name {empty, word, words with punctuation} x 1-2 rules x description {none, one line, two lines}; word lists with comments, comment-only and blank lines, multi-word lines; alias files with neither / either / both sections) serialised to .rsca in every documented layout (indent, blank line between rules, blank line between groups, space after @/#): the real `asca` binary is run in a fresh directory: `run -o` output == asca::run(model); `conv asca` json == model; json -> `conv json` -> files -> `conv asca` -> json is the identity; running the converted files gives the same words. Plus the .rsca reader as a line state machine: every sequence of <= N line kinds {@name, #desc, blank, rule, indented rule}: conv asca . conv json . conv asca == conv asca, and agreement with the manual's reading on documented layouts. Non-trivial = comparisons that held.".into();
+    r.rule = "every generated project (1-2 (3) rule groups x name {empty, word, words with punctuation} x 1-2 rules x description {none, one line, two lines}; word lists with comments, comment-only and blank lines, multi-word lines; alias files with neither / either / both sections) serialised to .rsca in every documented layout (indent, blank line between rules, blank line between groups, space after @/#): the real `asca` binary is run in a fresh directory: `run -o` output == asca::run(model), also with the project given as json (`-j`, with and without `-w`); `conv asca` json == model; json -> `conv json` -> files -> `conv asca` -> json is the identity; running the converted files gives the same words. Plus the .rsca reader as a line state machine: every sequence of <= N line kinds {@name, #desc, blank, rule, indented rule}: conv asca . conv json . conv asca == conv asca, and agreement with the manual's reading on documented layouts. Non-trivial = comparisons that held.".into();
     let projs = projects(thorough);
     let layouts: Vec<usize> = if thorough { (0..16).collect() } else { vec![0, 1, 7, 13] };
     let jobs: Vec<(usize, usize)> = (0..projs.len()).flat_map(|i| layouts.iter().map(move |l| (i, *l))).collect();
